@@ -12,30 +12,65 @@ type fieldConstraints struct {
 }
 
 func (check fieldConstraints) CheckFieldPreConstraints(r *FieldRequest, hnd *ValueHandle) (bool, error) {
-	t := r.Meta.Type()
 	if hnd.Val == nil {
 		return true, nil
 	}
-
-	switch t.Format() {
-	case val.FmtString:
-		if err := check.checkString(hnd.Val.String(), t); err != nil {
-			return false, err
-		}
-	case val.FmtStringList:
-		strs := hnd.Val.Value().([]string)
-		for _, s := range strs {
-			if err := check.checkString(s, t); err != nil {
-				return false, err
-			}
-		}
-	}
-	if t.Format().IsNumeric() {
-		if err := check.checkRange(hnd.Val, t); err != nil {
-			return false, err
-		}
+	if err := check.checkValue(hnd.Val, r.Meta.Type(), 0); err != nil {
+		return false, err
 	}
 	return true, nil
+}
+
+// checkValue holds a value against the restrictions of the type it is a value of: the type of
+// the leaf, the type a leafref points at, or the member of a union that the value belongs to
+func (check fieldConstraints) checkValue(v val.Value, t *meta.Type, depth int) error {
+	if depth > 16 {
+		return nil
+	}
+	switch t.Format().Single() {
+	case val.FmtLeafRef:
+		if target := t.Resolve(); target != t {
+			return check.checkValue(v, target, depth+1)
+		}
+		return nil
+	case val.FmtUnion:
+		// the value has to satisfy one of the members that hold values of its kind
+		var firstErr error
+		for _, member := range t.Union() {
+			mf := member.Format().Single()
+			if mf != v.Format().Single() && mf != val.FmtLeafRef && mf != val.FmtUnion {
+				continue
+			}
+			err := check.checkValue(v, member, depth+1)
+			if err == nil {
+				return nil
+			}
+			if firstErr == nil {
+				firstErr = err
+			}
+		}
+		return firstErr
+	}
+	switch v.Format() {
+	case val.FmtString:
+		return check.checkString(v.String(), t)
+	case val.FmtStringList:
+		for _, s := range v.Value().([]string) {
+			if err := check.checkString(s, t); err != nil {
+				return err
+			}
+		}
+		return nil
+	case val.FmtBinary:
+		if octets, isBytes := v.Value().([]byte); isBytes {
+			return check.lenCheckN(len(octets), fmt.Sprintf("%d octets", len(octets)), t.Length())
+		}
+		return nil
+	}
+	if v.Format().IsNumeric() && t.Format().IsNumeric() {
+		return check.checkRange(v, t)
+	}
+	return nil
 }
 
 func (check fieldConstraints) checkString(s string, t *meta.Type) error {
@@ -80,12 +115,15 @@ func (fieldConstraints) patternCheck(s string, patterns []*meta.Pattern) error {
 	return fmt.Errorf("'%s' violated one or more patterns", s)
 }
 
-func (fieldConstraints) lenCheck(s string, lengths []*meta.Range) error {
+func (check fieldConstraints) lenCheck(s string, lengths []*meta.Range) error {
 	// length is in characters and like range, every length of the typedef chain applies
-	n := val.Int32(utf8.RuneCountInString(s))
+	return check.lenCheckN(utf8.RuneCountInString(s), s, lengths)
+}
+
+func (fieldConstraints) lenCheckN(n int, what string, lengths []*meta.Range) error {
 	for _, length := range lengths {
-		if err := length.CheckValue(n); err != nil {
-			return fmt.Errorf("string length outside allowed range %s. %s", length, s)
+		if err := length.CheckValue(val.Int32(n)); err != nil {
+			return fmt.Errorf("string length outside allowed range %s. %s", length, what)
 		}
 	}
 	return nil
